@@ -66,6 +66,19 @@ impl Recorder {
         ev["drain"] = json!(self.sim.drain());
         ev["cap"] = json!(self.sim.arena.capacity());
         ev["isrem"] = json!(self.isrem_sample());
+        // C11: get_node_id_at for every position 1..count+2, as id tokens (0 = None, -1 = an id never issued)
+        let a = &self.sim.arena;
+        let idat: Vec<i64> = (1..=(p.count + 2))
+            .map(|pos| match a.get_node_id_at(std::num::NonZeroUsize::new(pos).unwrap()) {
+                None => 0,
+                Some(id) => {
+                    let t = self.sim.tok_of(id);
+                    if t == 0 { -1 } else { t as i64 }
+                }
+            })
+            .collect();
+        ev["idat"] = json!(idat);
+        ev["empty"] = json!(a.is_empty());
     }
 
     fn emit(&mut self, ev: serde_json::Value) {
